@@ -295,7 +295,7 @@ def main():
             raise Refuse("parameters")
         txt, info = translate(f, 'gmt_element', dict(bitmap_a='Nat', bitmap_b='Nat', sig_array='Arr'), 'Nat × Int')
         th = ("theorem gmt_element_eq (a b : Nat) (sig : Nat → Int) : GenLoop.gmt_element a b sig = Model.gmtElement sig a b := by\n"
-              "  simp only [GenLoop.gmt_element, Model.gmtElement, crs_eq]\n  try rfl\n")
+              "  simp only [GenLoop.gmt_element, Model.gmtElement, crs_eq]\n  first | rfl | (rw [Nat.xor_comm]) | skip\n")
         return txt, th
     if status.get('crs', {}).get('status') == 'ok':
         emit('gmt_element', gen_gmt)
